@@ -423,6 +423,9 @@ impl Prop for C05 {
     fn run(&self, case: &Value, ctx: &mut Ctx) {
         run_case("C05", case, ctx)
     }
+    fn sanitizer_cases(&self, seed: u64) -> Vec<Value> {
+        fq_sanitizer_cases(seed)
+    }
     fn floors(&self, _tier: Tier) -> Vec<(&'static str, u64)> {
         vec![
             ("fq_sweep_sequences", 100_000),
@@ -457,6 +460,9 @@ impl Prop for C06 {
     fn run(&self, case: &Value, ctx: &mut Ctx) {
         run_case("C06", case, ctx)
     }
+    fn sanitizer_cases(&self, seed: u64) -> Vec<Value> {
+        fq_sanitizer_cases(seed ^ 0xC06)
+    }
     fn floors(&self, _tier: Tier) -> Vec<(&'static str, u64)> {
         vec![
             ("fq_sweep_sequences", 100_000),
@@ -477,4 +483,18 @@ impl Prop for C06 {
     fn case_timeout(&self) -> std::time::Duration {
         std::time::Duration::from_secs(900)
     }
+}
+
+fn fq_sanitizer_cases(seed: u64) -> Vec<Value> {
+    let mut v = vec![
+        json!({"kind": "fq_sweep", "k": 2, "depth": 3, "pre": true, "block": true, "first": 1}),
+        json!({"kind": "fq_walks", "k": 3, "len": 60, "n": 6, "seed": seed, "saturate": false}),
+        json!({"kind": "fq_walks", "k": 3, "len": 30, "n": 1, "seed": seed ^ 5, "saturate": true}),
+        // real threads: data races / UB in the queue under the interpreter's scheduler
+        json!({"kind": "fq_threaded", "runs": 12, "seed": seed}),
+    ];
+    for ty in ["PULL", "ROUTER", "REP"] {
+        v.push(json!({"kind": "hist", "ty": ty, "peers": 2, "per": 2, "late": 1, "leavers": true, "violations": false, "saturate": false, "seed": seed ^ 9}));
+    }
+    v
 }
